@@ -9,3 +9,4 @@ for id in $ids; do for s in $seeds; do
   echo "$id seed=$s exit=$code $(echo "$out" | grep -E '^(HELD|VIOLATED|INCONCLUSIVE) ' | tail -1 | cut -c1-150)"
   [ $code -ne 0 ] && echo "$out" | grep -E '^(VIOLATION|INCONCLUSIVE)' | head -4 | cut -c1-400
 done; done
+exit 0
